@@ -115,3 +115,58 @@ Check ConstsTie.rights_masks_tie.
 Check ConstsTie.promotions_tie.
 Check ConstsTie.search_key_arity_tie.
 Check ConstsTie.clock_key_threshold_tie.
+
+(* ---- the typed LINE and the whole SESSION (Pvp.v = input layer + command dispatch + the
+   player-vs-player loop; PvpProofs.v) ---- *)
+From ChessV Require Pvp PvpProofs.
+
+Section C14_session.
+Variable T : ztable.
+Variables rook_t bishop_t : N -> N -> N.
+Hypothesis rook_t_ref : forall x o, x < 64 -> rook_t x o = Rays.rook_ref x o.
+Hypothesis bishop_t_ref : forall x o, x < 64 -> bishop_t x o = Rays.bishop_ref x o.
+
+(* one line: never a crash; either a legal move named by the line is played (history + 1, board =
+   rules' successor with the turn passed, invariant again) or the game is exactly as it was *)
+Theorem C14_pvp_step_spec : forall g raw g' out,
+  InvProofs2.Inv rook_t bishop_t (gboard g) -> Congr.fine 1 (gboard g) ->
+  Pvp.pvp_step T rook_t bishop_t g raw = (g', out) ->
+  out <> Pvp.Crashed /\ PvpProofs.step_c14 T rook_t bishop_t g raw g' out.
+Proof. exact (PvpProofs.pvp_step_spec T rook_t bishop_t rook_t_ref bishop_t_ref). Qed.
+
+Theorem C14_pvp_step_accepts_iff : forall g raw,
+  InvProofs2.Inv rook_t bishop_t (gboard g) -> Congr.fine 1 (gboard g) ->
+  ((exists m, snd (Pvp.pvp_step T rook_t bishop_t g raw) = Pvp.Played m) <->
+   exists m, In m (Rules.legal_moves (abstract (gboard g))) /\ PvpProofs.names g raw m).
+Proof. exact (PvpProofs.pvp_step_accepts_iff T rook_t bishop_t rook_t_ref bishop_t_ref). Qed.
+
+(* a whole session from any position in the invariant: no crash, the invariant at every prompt,
+   consecutive states related by the line-level statement, the final verdict exact *)
+Theorem C14_pvp_run_inv : forall inputs g gs r,
+  InvProofs2.Inv rook_t bishop_t (gboard g) -> hm_stack (gboard g) <> [] -> hd 0 (hm_stack (gboard g)) <= 100 ->
+  fullmove (gboard g) + N.of_nat (length inputs) < FULLMOVE_MAX ->
+  Pvp.pvp_run T rook_t bishop_t g inputs = (gs, r) ->
+  r <> Panic
+  /\ (exists v, r = Ok v /\ PvpProofs.ending_is (last gs g) v /\ (v = None -> length gs = S (length inputs)))
+  /\ (exists tl, gs = g :: tl)
+  /\ (length gs <= S (length inputs))%nat
+  /\ Forall (fun x => InvProofs2.Inv rook_t bishop_t (gboard x)) gs
+  /\ PvpProofs.session_ok T rook_t bishop_t gs inputs.
+Proof. exact (PvpProofs.pvp_run_inv T rook_t bishop_t rook_t_ref bishop_t_ref). Qed.
+End C14_session.
+
+Check @PvpProofs.parse_coord_line.
+Check @PvpProofs.parse_label_line.
+Check @PvpProofs.parse_input_sound.
+Check @PvpProofs.no_shadowing.
+Check @PvpProofs.pvp_step_promotion_queen.
+Check @PvpProofs.pvp_step_rejected_unchanged.
+Check PvpProofs.pvp_fools_mate.
+Print PvpProofs.step_c14.
+Print PvpProofs.accepted_state.
+Print PvpProofs.names.
+Print PvpProofs.ending_is.
+
+Print Assumptions C14_pvp_step_spec.
+Print Assumptions C14_pvp_step_accepts_iff.
+Print Assumptions C14_pvp_run_inv.
